@@ -12,6 +12,8 @@ pub mod types;
 pub use config::{Config, QuicConfig};
 pub use error::{Error, Result};
 pub use network::{Builder, KnownPeers, Network, NetworkRef, Peer};
+#[cfg(bmwill_anemo_verif)]
+pub use network::verif;
 pub use routing::Router;
 #[doc(inline)]
 pub use types::{request::Request, response::Response, ConnectionOrigin, Direction, PeerId};
